@@ -244,6 +244,43 @@ def check(ctx):
     # different geometry (dict(cfg, **log) silently overrides)
     # (informational count only; property text does not demand disjointness)
 
+    # R11 published widths: the table declares a type (and, for enumerations, a Size); how many bytes that is, is the
+    # accessor constructors' doing - Byte and Bool 1, Word / Time / Temp 2, Enum its Size (1 when none is given), as the
+    # in.touch2 pack definitions publish them.  Evaluated for every item from the geometry the interpreted constructors give.
+    ctx.rule("R11", "widths as published: for every item of every table the width the interpreted accessor constructor gives it is the width its declared type publishes - Byte and Bool 1 byte, Word, Time and Temp 2, Enum its Size argument (1 when none) - with the struct format to match (a Time item read as one byte loses its minutes, writes one byte and stops notifying for the other)")
+    WIDTH = {"GeckoByteStructAccessor": 1, "GeckoBoolStructAccessor": 1, "GeckoWordStructAccessor": 2, "GeckoTimeStructAccessor": 2, "GeckoTempStructAccessor": 2}
+    size_at = {}
+    n11, bad11 = 0, {}
+    for stem, m in sorted(T.modules.items()):
+        for it in m.items:
+            try:
+                g = T.geometry(it)
+            except AnalysisError:
+                continue
+            want = WIDTH.get(it.ctor)
+            if want is None and it.ctor == "GeckoEnumStructAccessor":
+                if it.ctor not in size_at:
+                    ini = repo.method(it.ctor, "__init__")
+                    names = [a.arg for a in ini.node.args.args][2:]      # after self, struct
+                    size_at[it.ctor] = names.index("size") if "size" in names else None
+                i_ = size_at[it.ctor]
+                sz = it.args[i_] if i_ is not None and i_ < len(it.args) else None
+                want = sz if isinstance(sz, int) and sz > 0 else 1
+            if want is None:
+                continue
+            n11 += 1
+            fmt = g.get("format")
+            if g["length"] != want or (isinstance(fmt, str) and fmt not in ({1: ">B", 2: ">H"}.get(want), None)):
+                bad11.setdefault(it.ctor, []).append((stem, it.key, g["length"], fmt, want))
+    for ctor_, lst in sorted(bad11.items()):
+        stem_, key_, got_, fmt_, want_ = lst[0]
+        ctx.ob("R11", f"{ctor_}::published-width", False,
+               f"{len(lst)} item(s) built by {ctor_} are {got_} byte(s) wide (format {fmt_!r}) where the declared type publishes {want_}, e.g. {stem_}::{key_}: the other byte is no longer part of the item",
+               repo.method(ctor_, "__init__").loc, sample={"rule": "R11", "constructor": ctor_, "items": len(lst)})
+    ctx.ob("R11", "widths::examined", n11 > 0, "no item width examined")
+    ctx.count("R11:item widths compared with the published width of their type", n11)
+    ctx.floor("R11", "item widths compared", n11, 15000)
+
     # R6 layout pin
     bp = VERIF / "baseline" / "pack_layout.json.gz"
     if not bp.exists():
